@@ -59,6 +59,7 @@ const (
 	bBadSigTLS
 	bTrailingSig
 	bBadExt
+	bGoodExt
 	nBodies
 )
 
@@ -85,7 +86,8 @@ func Harness_C12_addChain() {
 		vAssert(bytes.Equal(tbs, leafTBS) && preIssuer == nil, "TBS transformation applied to the submitted leaf's TBS, no pre-issuer")
 		return defanged, nil
 	}
-	status := []int{200, 200, 400, 404, 500}[vChoice("status", 5)]
+	status := c12Status()
+	vAssume(status != 408 && status != 429 && status != 503) // retried statuses: the retry discipline is C13's subject
 	kind := vChoice("body", nBodies)
 	idLen := []int{0, 31, 32, 33}[vChoice("id-len", 4)]
 	id := vBytes("id", idLen)
@@ -110,6 +112,8 @@ func Harness_C12_addChain() {
 			rsp.Signature = append(append([]byte{}, ds...), 0)
 		case bBadExt:
 			rsp.Extensions = "!!"
+		case bGoodExt:
+			rsp.Extensions = "AQID" // base64 of 01 02 03
 		}
 		sentBody = vJSONEncode(rsp)
 		if kind == bNotJSON {
@@ -148,7 +152,12 @@ func Harness_C12_addChain() {
 		return
 	}
 	vReach("returned")
-	vAssert(status == 200 && kind == bGood, "an SCT is only returned for a well-formed 200 response")
+	vAssert(status == 200 && (kind == bGood || kind == bGoodExt), "an SCT is only returned for a well-formed 200 response")
+	var exts []byte
+	if kind == bGoodExt {
+		exts = []byte{1, 2, 3}
+	}
+	vAssert(bytes.Equal(sct.Extensions, exts), "the returned SCT carries the extensions the server sent")
 	vAssert(tls.VerifCtlCalls == 1 && tls.VerifCtlVerdict, "the returned SCT's signature was verified")
 	vAssert(tls.VerifCtlKey == any(key), "under the log's key")
 	// an independent client derives the signed entry from what it submitted
@@ -156,11 +165,11 @@ func Harness_C12_addChain() {
 	if pre {
 		// precert entries need the issuer key hash and TBS: covered by C03; here only the type
 		ikh := sha256.Sum256(issuerSPKI)
-		want = rfcSCTSignatureInput(ts, true, nil, ikh[:], defanged, nil)
-		vAssert(bytes.Equal(tls.VerifCtlData, want), "over the RFC 6962 precert entry: issuer key hash, de-poisoned TBS, the returned timestamp")
+		want = rfcSCTSignatureInput(ts, true, nil, ikh[:], defanged, exts)
+		vAssert(bytes.Equal(tls.VerifCtlData, want), "over the RFC 6962 precert entry: issuer key hash, de-poisoned TBS, the returned timestamp and extensions")
 	} else {
-		want = rfcSCTSignatureInput(ts, false, chain[0].Data, nil, nil, nil)
-		vAssert(bytes.Equal(tls.VerifCtlData, want), "over the RFC 6962 entry built from the submitted chain, the endpoint's entry type and the returned timestamp")
+		want = rfcSCTSignatureInput(ts, false, chain[0].Data, nil, nil, exts)
+		vAssert(bytes.Equal(tls.VerifCtlData, want), "over the RFC 6962 entry built from the submitted chain, the endpoint's entry type, the returned timestamp and extensions")
 	}
 	vAssert(sct.Timestamp == ts && sct.SCTVersion == ver && bytes.Equal(sct.Signature.Signature, sig), "returned fields are the verified ones")
 	keyHash := sha256.Sum256(c12PubDER)
